@@ -472,7 +472,7 @@ def legs(tier, for_replay=False):
     out.append(Leg('shadow_onsite_N2', fn_shadow, it, chunk=1, src_states=len(reps[2]), exhaustive=not quick, supplementary=quick, timeout=3000,
                    bound='N=2 onsite_rcc on one tableau per density matrix (91) x %s sign strings x every rejection-free sampler coin string (mass 0.56) x every '
                          'measurement coin string' % ('1 of 16 (capped in quick)' if quick else 'all 16')))
-    it = []
+    it = [[1, reps[1][0], 'global_rcc', 1, [], [], 0]]      # cheap head item: the runner replays the first item twice in the parent
     nglob = 8 if quick else len(reps[2])
     sub = _subset(reps[2], nglob)
     for j, i in enumerate(sub):
